@@ -17,6 +17,24 @@ pub struct CourseRoomKind {
     quantity: usize,
 }
 
+#[cfg(feature = "verif")]
+impl CourseRoomKind {
+    /// Verification hook: (name, capacity, quantity)
+    pub fn verif_fields(&self) -> (String, usize, usize) {
+        (self.name.clone(), self.capacity, self.quantity)
+    }
+}
+
+/// Verification hook: the private helper behind the two listing functions
+#[cfg(feature = "verif")]
+pub fn verif_possible_course_room_sizes(
+    assignment: &Assignment,
+    courses: &[Course],
+    rooms: Vec<usize>,
+) -> Vec<Vec<usize>> {
+    calculate_possible_course_room_sizes(assignment, courses, rooms)
+}
+
 /// Read the available course rooms from a JSON-serialized list of course room kinds
 pub fn read<R: std::io::Read>(reader: R) -> Result<(Vec<usize>, Vec<CourseRoomKind>), String> {
     let mut room_kinds =
